@@ -16,6 +16,8 @@ TIER = ["quick"]
 def build(only=None):
     """The live world; with only=<name> just that object (used for the pristine single-object reference)."""
     from localcider.sequenceParameters import SequenceParameters as SP
+    import localcider.sequenceParameters as M
+    M.open = _MEMOPEN      # write_compfile writes into memory (part of the initial world, so not a state change)
     names = ["A", "A2", "B"] + (["C", "P"] if TIER[0] == "thorough" else [])
     objs = {}
     for n in names:
@@ -72,6 +74,12 @@ def per_object_ops(n):
         ("get_mean_net_charge()", g(lambda o: o.get_mean_net_charge())),
         ("get_mean_net_charge(pH=9)", g(lambda o: o.get_mean_net_charge(9.0))),
         ("get_isoelectric_point", g(lambda o: o.get_isoelectric_point())),
+        ("get_NCPR(pH=7)", g(lambda o: o.get_NCPR(7.0))),
+        ("get_mean_net_charge(pH=3.5)", g(lambda o: o.get_mean_net_charge(3.5))),
+        ("get_NCPR(pH=10.5)", g(lambda o: o.get_NCPR(10.5))),
+        ("get_kappa_X(DEKR)", g(lambda o: o.get_kappa_X(['D', 'E', 'K', 'R']))),
+        ("get_kappa_X(ED,KRP)", g(lambda o: o.get_kappa_X(['E', 'D'], ['K', 'R', 'P']))),
+        ("write_compfile", g(lambda o: _write_compfile(o))),
         ("get_molecular_weight", g(lambda o: o.get_molecular_weight())),
         ("get_phasePlotRegion", g(lambda o: o.get_phasePlotRegion())),
         ("get_phosphosites", g(lambda o: o.get_phosphosites())),
@@ -98,6 +106,21 @@ def per_object_ops(n):
         ("get_HTMLColorString", g(lambda o: o.get_HTMLColorString())),
     ]
     return [(n + "." + name, f) for name, f in ops]
+
+
+class _MemOpen:
+    def __call__(self, name, mode="r", *a, **k):
+        import io
+        return io.StringIO()
+
+
+_MEMOPEN = _MemOpen()
+
+
+def _write_compfile(o):
+    """write_compfile is not a query, but it is a public call that must not alter the object either."""
+    o.write_compfile("/mem/compfile")
+    return None
 
 
 def all_ops():
@@ -142,6 +165,14 @@ def pair_inputs(tier):
             if p and n:
                 out.append(R.spell_rotating("".join(sorted(blocks, key=lambda c: "+0-".index(c)))[::2] + "".join(sorted(blocks, key=lambda c: "+0-".index(c)))[1::2], 1))
     out += ["K", "P", "KE", "SSSSS", "KKKKKK", "EEEEEEEEEEEE", "ACDEFGHIKLMNPQRSTVWY", "WYVTSRQPNMLKIHGFEDCA"]
+    # long, sparsely charged sequences of equal length (keys built from rounded fractions collide above ~100 residues)
+    for L in ((150,) if tier == "quick" else (120, 150, 250)):
+        bg = ("GSQNTA" * (L // 6 + 1))[:L]
+        for ins in ("", "K", "KR", "D", "ED", "KE"):
+            s_ = list(bg)
+            for i, c in enumerate(ins):
+                s_[L // 3 + 7 * i] = c
+            out.append("".join(s_))
     seen = []
     for s_ in out:
         if s_ not in seen:
@@ -272,6 +303,45 @@ def task_ref(i):
     return i, H.run_op(e.ops[i], objs)
 
 
+def task_pairs_same_object(i):
+    """Depth-2 exhaustively, independent of state merging: op i first, then every op of the same object in turn."""
+    e = _expander()
+    acc = core.Acc()
+    names = [o[0] for o in e.ops]
+    obj = names[i].split(".", 1)[0]
+    js = [j for j, n in enumerate(names) if n.split(".", 1)[0] == obj]
+    ref = _REF["ref"]
+    objs = e.rebuild([i])
+    acc.states += 1
+    acc.traces += 1
+    nmin = 0
+    for j in js:
+        r = H.run_op(e.ops[j], objs)
+        acc.transitions += 1
+        acc.evaluations += 1
+        if r != ref[j]:
+            hist = [i] + js[:js.index(j)]
+            if nmin < 2:
+                nmin += 1
+                o2 = e.rebuild([i])
+                if H.run_op(e.ops[j], o2) != ref[j]:
+                    hist = [i]
+            acc.viol("history-dependent:" + names[j].split(".", 1)[1],
+                     "after %r, %s returned %r; as the first call on a fresh object it returns %r"
+                     % ([names[h] for h in hist], names[j], _short(r), _short(ref[j])),
+                     {"tier": TIER[0], "history": [names[h] for h in hist], "op": names[j]})
+        for (k, w) in invariant(objs, names[j], r):
+            acc.viol(k, w, {"tier": TIER[0], "history": [names[i]], "op": names[j]})
+    return acc
+
+
+_REF = {}
+
+
+def _set_ref(ref):
+    _REF["ref"] = ref
+
+
 def task_expand(args):
     hist, expected = args
     return hist, _expander().expand(hist, expected)
@@ -319,6 +389,11 @@ def run(tier, seed, t0):
     ctx = mp.get_context("fork")
     with ctx.Pool(core.NPROC) as pool:
         ref = dict(pool.imap_unordered(task_ref, range(len(ops)), 4))
+    _REF["ref"] = ref
+    with ctx.Pool(core.NPROC) as pool:      # new pool: workers inherit the reference table
+        for a1 in pool.imap_unordered(task_pairs_same_object, range(len(ops)), 2):
+            acc.merge(a1)
+        acc.extra["same_object_pair_histories"] = len(ops)
         reps = {}          # digest -> representative history
         steps_of = {}      # digest -> {op: (result, next digest)}
         alts = {}          # digest -> number of alternative histories validated
@@ -329,12 +404,9 @@ def run(tier, seed, t0):
         while frontier:
             if len(reps) > cap:
                 # a state space that does not close (e.g. a cache that grows with every call) - stop expanding, say so
+                # not a violation (caching is allowed to be invisible): the run is reported as capped / not exhaustive
                 acc.capped += 1
                 acc.extra["state_cap_hit"] = len(reps)
-                if not acc.nviol:
-                    acc.viol("state-space-does-not-close", "more than %d distinct canonical states were reached by read-only queries "
-                             "(the unchanged tree closes at 54 / 486): some query keeps changing package or object state"
-                             % cap, {"kind": "statecap", "tier": tier})
                 break
             results = pool.map(task_expand, frontier, 1)
             nxt = []
@@ -393,10 +465,13 @@ def run(tier, seed, t0):
         inputs = pair_inputs(tier)
         solo = dict(pool.imap_unordered(task_solo, inputs, 1))
         tasks = []
-        for i, a in enumerate(inputs):
-            others = inputs[i + 1:] + inputs[:i]
-            others = others if i % 2 == 0 else list(reversed(others))
-            tasks.append((a, others + [a], solo))
+        shorts = [x for x in inputs if len(x) <= 60]
+        longs = [x for x in inputs if len(x) > 60]
+        for group in (shorts, longs):      # long inputs only meet long inputs (cost), short ones only short ones
+            for i, a in enumerate(group):
+                others = group[i + 1:] + group[:i]
+                others = others if i % 2 == 0 else list(reversed(others))
+                tasks.append((a, others + [a], solo))
         for a2 in pool.imap_unordered(task_pairs, tasks, 1):
             acc.merge(a2)
         acc.extra["pair_inputs"] = len(inputs)
@@ -412,7 +487,8 @@ def run(tier, seed, t0):
              "settings; a history is expanded only if its state is new, search runs to the fixpoint (no depth bound); oracle: every "
              "result must be bit-identical to the same call made first on a fresh object that is ALONE in a pristine world, stored sequence and "
              "phosphosites unchanged; merge validation: up to %d alternative histories per state are expanded too and must agree "
-             "on every result and successor state. Phase 2: %d inputs chosen to collide on coarse cache keys (equal charge counts at "
+             "on every result and successor state. Phase 1b (independent of state merging): for every call i, a fresh world runs i and "
+             "then every call of the same object in turn (all ordered same-object pairs). Phase 2: %d inputs chosen to collide on coarse cache keys (equal charge counts at "
              "different lengths, equal composition in different spellings, permutations, equal strings): for every input a, a fresh "
              "world analyses a with 30 calls and then every other input (and a again on a new object) in turn; each result must "
              "equal the input's solo result in a pristine world (every ordered pair occurs; a failure is minimised to a pair where "
